@@ -184,3 +184,15 @@ pub fn k18_canary() {
     insertion_sort(&mut v, &less);
     assert!(v[0] == old[0]);
 }
+
+/// sequential stand-in for `rayon::join` (Kani cannot compile rayon's `catch_unwind`); never
+/// executed at the sizes checked here (slices <= 20 elements are insertion-sorted)
+pub fn seq_join<A, B, RA, RB>(a: A, b: B) -> (RA, RB)
+where
+    A: FnOnce() -> RA + Send,
+    B: FnOnce() -> RB + Send,
+    RA: Send,
+    RB: Send,
+{
+    (a(), b())
+}
